@@ -5,21 +5,21 @@ usage: retag.py [--dry]"""
 import re, glob, sys
 STAGE_PROPS = {
  'target':  'C01 C02 C03 C05 C08 C09 C10 C13 C17 C18',
- 'gen':     'C01 C02 C04 C05 C07 C08 C11 C12 C13 C17 C19',
- 'iter':    'C01 C02 C04 C08 C19',
+ 'gen':     'C01 C02 C04 C05 C07 C08 C09 C10 C11 C12 C13 C17 C19',
+ 'iter':    'C01 C02 C04 C08 C09 C10 C19',
  'cache':   'C01 C02 C05 C07 C11 C12 C13 C17',
  'pktgen':  'C01 C02 C05 C07 C11 C12 C13 C16 C17 C19',
  'fill':    'C01 C02 C05 C07 C11 C13 C17 C19',
  'send':    'C01 C05 C07 C11 C12 C13 C15 C16 C19',
  'recv':    'C03 C06 C11 C12 C16 C20',
  'errs':    'C03 C07 C08 C12 C13 C16 C20',
- 'proc':    'C03 C06 C14 C16 C20',
+ 'proc':    'C03 C06 C11 C14 C16 C20',
  'filter':  'C01 C02 C03',
  'result':  'C03 C06 C08 C09 C10 C11 C12 C14 C16 C20',
  'log':     'C03 C06 C08 C09 C10 C11 C12 C13 C14 C16 C19 C20',
- 'pktcmd':  'C01 C02 C03 C05 C07 C11 C12 C13 C14 C15 C16 C17',
- 'appcmd':  'C01 C02 C08 C12 C13 C14 C15 C16',
- 'engine':  'C01 C03 C07 C08 C09 C10 C11 C12 C13 C14 C15 C16 C19 C20',
+ 'pktcmd':  'C01 C02 C03 C05 C06 C07 C11 C12 C13 C14 C15 C16 C17 C18 C19',
+ 'appcmd':  'C01 C02 C08 C09 C10 C12 C13 C14 C15 C16 C18',
+ 'engine':  'C01 C03 C06 C07 C08 C09 C10 C11 C12 C13 C14 C15 C16 C19 C20',
  'app':     'C01 C02 C08 C09 C10 C12 C13 C15',
  'socks':   'C01 C02 C08 C09 C12 C14',
  'docker':  'C01 C02 C08 C10 C12 C14',
